@@ -605,6 +605,9 @@ func (e *Exec) tryMerge(fr *Frame, b *ssa.BasicBlock, c *smt.Term) (cont, bool) 
 	failMerge := func(why string) (cont, bool) {
 		e.restoreDecisions(snapDec)
 		e.pc = e.pc[:snapPC]
+		if e.modelPCLen > snapPC {
+			e.modelPCLen = snapPC
+		}
 		fr.visits = snapVisits
 		e.noMerge[b] = true
 		e.stats.MergeFails++
